@@ -92,7 +92,7 @@ CHECKS["C12"] = dict(
     design="6 (C12)", technique="Coq proof by unfolding/case analysis of handle_findservice + exact trace correspondence + extracted checker", note=STACK_NOTE)
 CHECKS["C13"] = dict(
     text="Coq theorems for every world: round content = find entries of exactly the watched filters without a matching stored offer, wildcards and find TTL preserved, no further round after REPETITIONS_MAX, task ends as soon as nothing is unfound. Round schedule over the loop checked on every run (check_C13, liveness from the abstract TTL-store specification).",
-    design="6 (C13)", technique="Coq proof of the find task transitions + exact trace correspondence + extracted checker", note=STACK_NOTE)
+    design="6 (C13)", technique="Coq proof of the find task transitions, the find coroutine translated from the source (gen_find_task) + exact trace correspondence + extracted checker", note=STACK_NOTE)
 CHECKS["C14"] = dict(
     text="Coq theorem over WHOLE RUNS of the stack model (Proofs/WorldMirror.v, invariant kept by the callback of every handle, every loop step and run): for every scenario of subscribe / stop-subscribe / start / stop calls of the subscriber at arbitrary times (also deferred into an instant), every tie order, refresh configuration and fuel, and inside the property's domain (no subscribe for ids already requested from the same server: ghost event GDupSub), a server that applies the Subscribe / StopSubscribe entries it was sent in the order sent holds in every idle state exactly the eventgroups requested from it while the subscriber runs and none after it was stopped; in every other state the difference is exactly what the pending callbacks will send (symbolic execution of the ready queue). Plus Coq theorems for every world: Subscribe message/entry content (ids, TTL, counter 0, one endpoint option from the local sockname and protocol). Not proved: the refresh bound in time, and the mirror statement with the other components' traffic interleaved; both judged on every run by check_C14 on implementation traces + exact trace correspondence.",
     design="6 (C14)", technique="Coq proof by invariant over whole runs (symbolic execution of pending callbacks) + exact trace correspondence on a virtual-time loop + extracted checker (ideal-server fold)", note=STACK_NOTE)
